@@ -32,3 +32,19 @@ func verifPoolPut(pool *bufferPool, buffer *bytes.Buffer) {
 		hook(false, pool, buffer)
 	}
 }
+
+// VerifCodecPoolHook, when set, observes every compressor / decompressor taken
+// from (get=true) or returned to (get=false) a compression pool.
+var VerifCodecPoolHook func(get bool, pool any, object any)
+
+func verifCodecGet(pool *compressionPool, object any) {
+	if hook := VerifCodecPoolHook; hook != nil {
+		hook(true, pool, object)
+	}
+}
+
+func verifCodecPut(pool *compressionPool, object any) {
+	if hook := VerifCodecPoolHook; hook != nil {
+		hook(false, pool, object)
+	}
+}
